@@ -166,6 +166,27 @@ func bulkScript(n int) []scriptStep {
 // manyScript: more resources than the largest page (the server caps a page at 100): 103
 // topics, 102 subscriptions of one topic, 103 snapshots, then every List walked with page
 // sizes above the cap (101, 1000), at it (100) and below it, following the page tokens
+// fanoutScript: one topic with n subscriptions (far more than any internal batch size), some of
+// them filtered; every publish creates one delivery per matching subscription, whatever n (C01)
+func fanoutScript(n int) []scriptStep {
+	s := []scriptStep{opStep(&Op{Kind: "CreateTopic", Name: sT0})}
+	name := func(i int) string { return fmt.Sprintf("projects/p/subscriptions/f%03d", i) }
+	for i := 0; i < n; i++ {
+		q := &SubReq{Name: name(i), Topic: sT0}
+		if i%50 == 7 {
+			q.Filter = "attributes:x"
+		}
+		s = append(s, subStep(q))
+	}
+	s = append(s, pubStep(sT0, ""), pubStep(sT0, "", ""))
+	for _, i := range []int{0, 199, 200, 201, 202, n / 2, n - 2, n - 1} {
+		if i >= 0 && i < n {
+			s = append(s, pullStep(name(i), 10))
+		}
+	}
+	return s
+}
+
 func manyScript() []scriptStep {
 	s := []scriptStep{opStep(&Op{Kind: "CreateTopic", Name: sT0})}
 	for i := 0; i < 102; i++ {
